@@ -44,6 +44,11 @@ CLAIMED["C19"] = ("4/C19", "FakeClock: every sequence of 2 (quick) / 3 (thorough
                   "auto-advance are distinct; SystemClock over an arbitrary time_ns; ZonedClock getters over a stub clock, fixed zones and DayCalendar.",
                   "real thread interleavings are outside the claim (no thread model in this technique family): mutual exclusion is argued from the "
                   "lock discipline observed on every sequential path")
+CLAIMED["C11"] = ("4/C11", "Real OffsetDateTime/OffsetDate/OffsetTime/Instant code over the DayCalendar abstraction (dates are day numbers; "
+                  "contract C01 + C09): construction local = instant + offset, to_instant inverse, with_offset (both double day carries), "
+                  "with_calendar, +/- Duration in all six spellings (instant moves exactly; offset and calendar retained), plus_<unit>, "
+                  "value - value = instant difference across offsets and calendars, date/time adjusters, OffsetDate/OffsetTime recombination.",
+                  "ZonedDateTime arithmetic over a symbolic zone is claimed under C05's SymZone lemmas when built; real-calendar retention lemma in thorough only")
 NOT_BUILT = {}
 
 NA_REASON = "check not built yet in this round (design in DESIGN.md section 4); no claim is made"
